@@ -1329,3 +1329,494 @@ def sprt_product(S, I, variant):
     for j in indices(S, n, "j"):
         instF(j + 1)
         S.eq("hist[j]=min(1,1/T_j), T_j = prod of the SPRT factors with eta_i=(N eta-S_i)/(N-i)", hist.at(j), spec(j, T.at(j + 1)))
+
+
+# ------------------------------------------------------------------ well-formed p-values for the Kaplan tests and the SPRT (C11)
+
+def generic_wf(S, I, fn, self, x, n, native, factor_ok, hist_of, p_of, agg, ro, entry_ok=None, pre_Q=None, extra_inst=None,
+               Qpred=None, known=None, known_clauses=("hist[j] in [0,1], not NaN", "p in [0,1], not NaN")):
+    """shared shape: terms = cumprod(f) [+ overrides]; hist = hist_of(terms); p = p_of(extreme(terms) | terms[-1]).
+    factor_ok(k, Fk) : invariant on the running product over the first k factors (proved by induction);
+    entry_ok(T)      : what is needed of every entry of `terms` (after overrides) for a well-formed history."""
+    I.trace.clear()
+    c = ctx()
+    c.trace.clear()
+    r, exc = run_guard(S, I, fn, [self, x], native=native)
+    if exc:
+        return
+    p, hist = r
+    hold = (lambda nm, g: S.known(known, nm, g)) if known else S.holds
+    S.holds("len(hist)=n", icmp("==", hist.length, n))
+    if isinstance(n, int):
+        for j in range(n):
+            hold("hist[j] in [0,1], not NaN", hist_ok_v(hist.at(j)))
+        hold("p in [0,1], not NaN", hist_ok_v(p))
+        if c.decide(bterm(ro)) if not isinstance(ro, bool) else ro:
+            for j in range(n):
+                hold("p <= hist[j] (random order)", xcmp("<=", p, hist.at(j)))
+            hold("p = hist[w] for some w (random order)", bor(*[xsame(p, hist.at(j)) for j in range(n)]))
+        else:
+            hold("p = hist[last] (not random order)", xsame(p, hist.at(n - 1)))
+        return
+    if known:
+        for nm in known_clauses:
+            S.expected_fail(known, nm)
+        return
+    cps = I.trace.get("cum*", [])
+    if len(cps) != 1:
+        S.holds("exactly one running product", False)
+        return
+    Fc = cps[0].fold("*")
+    instQ = induction_with(S, "running product invariant", lambda k: factor_ok(k, Fc.at(k)), n, pre=pre_Q)
+    ext = [e for e in c.trace if e[0] == "extreme"]
+    # the array the history is computed from: the argument of the extreme when there is one, else recover it from hist
+    is_ro = c.decide(bterm(ro)) if not isinstance(ro, bool) else ro
+    j = indices(S, n, "j")[0]
+    if extra_inst:
+        extra_inst(j)
+    instQ(j)
+    instQ(iadd(j, 1))
+    hold("hist[j] in [0,1], not NaN", hist_ok_v(hist.at(j)))
+    if is_ro:
+        if len(ext) != 1:
+            S.holds("one extreme over the history", False)
+            return
+        _, which, M, w, wn, terms = ext[0]
+        for q in (w, wn):
+            if extra_inst:
+                extra_inst(q)
+            instQ(q)
+            instQ(iadd(q, 1))
+        Tj, Tw, Twn = terms.at(j), terms.at(w), terms.at(wn)
+        l1 = S.holds("hist[j] = h(terms[j])", xsame(hist.at(j), hist_of(Tj)))
+        l2 = S.holds("hist[w] = h(terms[w])", xsame(hist.at(w), hist_of(Tw)))
+        l3 = S.holds("p = g(extreme(terms))", xsame(p, p_of(M)))
+        def _adm(i):
+            if extra_inst:
+                extra_inst(i)
+            instQ(i)
+            instQ(iadd(i, 1))
+            return entry_ok(terms.at(i))
+        instT = S.forall_lemma("terms[i] admissible", n, _adm)
+        eo = []
+        if not (instT(j) and instT(w) and instT(wn)):
+            S.holds("prerequisite lemmas of the p-value clauses", False)
+            return
+        if known:
+            hold("p in [0,1], not NaN", hist_ok_v(p))
+            hold("p <= hist[j] (random order)", xcmp("<=", p, hist.at(j)))
+            hold("p = hist[w] (random order, extreme attained)", xsame(p, hist.at(w)))
+            return
+        if any(r_.status != "proved" for r_ in [l1, l2, l3] + eo):
+            S.holds("prerequisite lemmas of the p-value clauses", False)
+            return
+        inr = lambda i: band(icmp(">=", i, 0), icmp("<", i, n))
+        op = ">=" if which == "max" else "<="
+        facts = [inr(w), inr(wn), inr(j), bimp(M.nan, xr(Twn).nan), bimp(bnot(M.nan), xsame(M, Tw)),
+                 bimp(xr(Tj).nan, M.nan), bimp(bnot(M.nan), xcmp(op, M, Tj)), M.wf(),
+                 entry_ok(Tj), entry_ok(Tw), entry_ok(Twn), xr(Tj).wf(), xr(Tw).wf(), xr(Twn).wf(),
+                 xsame(hist.at(j), hist_of(Tj)), xsame(hist.at(w), hist_of(Tw)), xsame(p, p_of(M))]
+        opq = [Tj, Tw, Twn]
+        S.prove_using("p in [0,1], not NaN", hist_ok_v(p), facts, opq)
+        S.prove_using("p <= hist[j] (random order)", xcmp("<=", p, hist.at(j)), facts, opq)
+        S.prove_using("p = hist[w] (random order, extreme attained)", xsame(p, hist.at(w)), facts, opq)
+        S.holds("wf(terms)", band(xr(Tj).wf(), xr(Tw).wf(), xr(Twn).wf()))
+    else:
+        last = isub(n, 1)
+        if extra_inst:
+            extra_inst(last)
+        instQ(last)
+        instQ(n)
+        hold("p = hist[last] (not random order)", xsame(p, hist.at(last)))
+        hold("p in [0,1], not NaN", hist_ok_v(p))
+    S.check_vacuity("generic_wf")
+
+
+ONE = XR.const(1, npk=True)
+
+
+def pos_or_inf(T):
+    T = xr(T)
+    return band(bnot(T.nan), bnot(T.ninf), bimp(T.fin(), rcmp(">", T.v, 0)))
+
+
+def nonneg_fin(T):
+    T = xr(T)
+    return band(T.fin(), rcmp(">=", T.v, 0))
+
+
+@script(["C11", "C01"], "NonnegMean.kaplan_markov/well-formed")
+def km_wf(S, I, variant):
+    n = S.length("n", lo=1)
+    u = S.real("u", lo_strict=0)
+    t = S.real("t", lo_strict=0, hi_strict=u)
+    g = S.real("g", lo=0)
+    x = S.array("x", n, 0, u)
+    ro = S.boolean("random_order")
+    self = mk_self(I, {"u": u, "N": INF, "t": t, "g": g, "random_order": ro})
+    fn = I.get(MOD, "NonnegMean.kaplan_markov")
+    generic_wf(S, I, fn, self, x, n, nn_native("kaplan_markov", False, attrs=("g", "random_order")),
+               factor_ok=lambda k, Fk: pos_or_inf(Fk),
+               hist_of=lambda T: xminimum(T, ONE),
+               p_of=lambda M: xminimum(XR.const(1, npk=True), M), agg="min", ro=ro, entry_ok=pos_or_inf)
+
+
+@script(["C11", "C01"], "NonnegMean.kaplan_wald/well-formed")
+def kw_wf(S, I, variant):
+    n = S.length("n", lo=1)
+    u = S.real("u", lo_strict=0)
+    t = S.real("t", lo_strict=0, hi_strict=u)
+    g = S.real("g", lo=0, hi=1)
+    x = S.array("x", n, 0, u)
+    ro = S.boolean("random_order")
+    self = mk_self(I, {"u": u, "N": INF, "t": t, "g": g, "random_order": ro})
+    fn = I.get(MOD, "NonnegMean.kaplan_wald")
+    generic_wf(S, I, fn, self, x, n, nn_native("kaplan_wald", False, attrs=("g", "random_order")),
+               factor_ok=lambda k, Fk: nonneg_fin(Fk),
+               hist_of=lambda T: xminimum(xdiv_np(ONE, T), ONE),
+               p_of=lambda M: xminimum(XR.const(1, npk=True), xdiv_np(ONE, M)), agg="max", ro=ro, entry_ok=nonneg_fin)
+
+
+@script(["C11", "C01"], "NonnegMean.kaplan_kolmogorov/well-formed", variants=(("padded",), ("any",)))
+def kk_wf(S, I, variant):
+    """'padded': every x_i + g > 0 (g > 0, or no zero observation): proved.  'any': recorded known finding K4 (NaN)."""
+    install_contracts(I)
+    padded = variant[0] == "padded"
+    n, u, t, Nv, Nspec = base_regime(S, True)
+    g = S.real("g", lo=0, hi_strict=1)
+    x = S.array("x", n, 0, u)
+    if padded:
+        if x.items is not None:
+            for e in x.items:
+                ctx().assume(xcmp(">", xadd(e, g), XR.const(0)))
+        else:
+            old = x._elem
+            x._elem = lambda i: (lambda e: (ctx().assume(xcmp(">", xadd(e, g), XR.const(0))), e)[1])(old(i))
+    ro = S.boolean("random_order")
+    self = mk_self(I, {"u": u, "N": Nv, "t": t, "g": g, "random_order": ro})
+    fn = I.get(MOD, "NonnegMean.kaplan_kolmogorov")
+    PS = x.fold("+")
+    mg = lambda k: xadd(mu_spec(Nspec, t, PS, k), g)      # null mean of the padded data before draw k
+
+    # invariant: if the padded null mean before draw k-1 is >= 0 the running product over k factors is > 0 (or +inf)
+    def factor_ok(k, Fk):
+        return bimp(band(icmp(">=", k, 1), xcmp(">=", mg(isub(k, 1)), XR.const(0))), pos_or_inf(Fk))
+
+    shift_holder = {}
+
+    def pre(k):
+        sh = shift_holder.get("f")
+        if sh:
+            for q in (k, k + 1, k - 1):
+                sh(q)
+
+    def extra_inst(q):
+        pre(zi(q))
+
+    if not isinstance(n, int):
+        # the code calls sjm on x+g: relate its running sums to the input's (needs the padded array: run once to get it)
+        pass
+    generic_wf_kk(S, I, fn, self, x, n, g, ro, factor_ok, padded, shift_holder, pre, extra_inst)
+
+
+def generic_wf_kk(S, I, fn, self, x, n, g, ro, factor_ok, padded, shift_holder, pre, extra_inst):
+    native = nn_native("kaplan_kolmogorov", True, attrs=("g", "random_order"))
+    orig_sjm = I.contracts["NonnegMean.sjm"]
+
+    def sjm_hook(I_, fn_, args, kwargs):
+        r = orig_sjm(I_, fn_, args, kwargs)
+        xs = I_.trace.get("sjm_x", [])
+        if xs and "f" not in shift_holder and xs[-1].items is None:
+            shift_holder["f"] = sum_shift_lemma(S, x, xs[-1], g, n)
+        return r
+
+    I.contracts["NonnegMean.sjm"] = sjm_hook
+    generic_wf(S, I, fn, self, x, n, native, factor_ok=factor_ok,
+               hist_of=lambda T: xminimum(xdiv_np(ONE, T), ONE),
+               p_of=lambda M: xmin_py(xdiv_np(ONE, M), XR.const(1)), agg="max", ro=ro,
+               entry_ok=pos_or_inf, pre_Q=pre, extra_inst=extra_inst, known=None if padded else "K4")
+
+
+@script(["C11", "C01"], "NonnegMean.wald_sprt/well-formed", variants=(("finiteN", "inside"), ("infN", "inside"), ("finiteN", "any")))
+def sprt_wf(S, I, variant):
+    """'inside': samples that keep the null mean mu_i in (0,u) and the alternative eta_i in [0,u]: proved.
+    'any': recorded known finding K9 (no boundary conventions in wald_sprt: negative / NaN history entries)."""
+    finiteN = variant[0] == "finiteN"
+    insideR = variant[1] == "inside"
+    n, u, t, Nv, Nspec = base_regime(S, finiteN)
+    eta = S.real("eta", lo_strict=t, hi_strict=u)
+    x = S.array("x", n, 0, u)
+    ro = S.boolean("random_order") if not finiteN else True
+    self = mk_self(I, {"u": u, "N": Nv, "t": t, "eta": eta, "random_order": ro})
+    fn = I.get(MOD, "NonnegMean.wald_sprt")
+    PS = x.fold("+")
+    mu = lambda k: mu_spec(Nspec, t, PS, k)
+    ek = lambda k: mu_spec(Nspec, eta, PS, k)
+    zero = XR.const(0)
+
+    def regime(k):
+        if insideR and finiteN:
+            c = ctx()
+            c.assume(bimp(band(icmp(">=", k, 0), icmp("<", k, n)),
+                          band(inside(mu(k), u), xcmp(">=", ek(k), zero), xcmp("<=", ek(k), u))))
+
+    def pre(k):
+        for q in (k, k - 1, k + 1):
+            regime(zi(q))
+
+    if isinstance(n, int) and insideR and finiteN:
+        for k in range(n):
+            regime(k)
+    generic_wf(S, I, fn, self, x, n, nn_native("wald_sprt", finiteN, attrs=("eta", "random_order") if not finiteN else ("eta",)),
+               factor_ok=lambda k, Fk: nonneg_fin(Fk),
+               hist_of=lambda T: xminimum(ONE, xdiv_np(ONE, T)),
+               p_of=lambda M: xmin_py(XR.const(1), xdiv_np(ONE, M)), agg="max", ro=ro,
+               entry_ok=nonneg_fin, pre_Q=pre, extra_inst=lambda q: pre(zi(q)), known=None if insideR else "K9",
+               known_clauses=("hist[j] in [0,1], not NaN",))
+
+
+# ------------------------------------------------------------------ conversions, ALPHA == betting (C12)
+
+@script(["C12"], "NonnegMean.lam_to_eta+eta_to_lam/inverse")
+def conversions(S, I, variant):
+    u = S.real("u", lo_strict=0)
+    mu = S.real("mu", lo_strict=0, hi_strict=u)
+    lam = S.real("lam")
+    eta = S.real("eta")
+    self = mk_self(I, {"u": u})
+    l2e = I.get(MOD, "NonnegMean.lam_to_eta")
+    e2l = I.get(MOD, "NonnegMean.eta_to_lam")
+    S.native_desc = None
+    try:
+        e1 = I.run(l2e, [self, lam, mu])
+        l1 = I.run(e2l, [self, eta, mu])
+        back_l = I.run(e2l, [self, e1, mu])
+        back_e = I.run(l2e, [self, l1, mu])
+    except PyRaise as e:
+        S.holds("no-exception:" + e.exc_type, False)
+        return
+    S.eq("lam_to_eta = mu(1+lam(u-mu))", e1, xmul(mu, xadd(XR.const(1), xmul(lam, xsub(u, mu)))))
+    S.eq("eta_to_lam = (eta/mu-1)/(u-mu)", l1, xdiv_np(xsub(xdiv_np(eta, mu), XR.const(1)), xsub(u, mu)))
+    S.eq("eta_to_lam(lam_to_eta(lam)) = lam", back_l, lam)
+    S.eq("lam_to_eta(eta_to_lam(eta)) = eta", back_e, eta)
+
+
+@script(["C12", "C01"], "ALPHA==betting/factor-equivalence", variants=(("finiteN",), ("infN",)))
+def alpha_betting_equiv(S, I, variant):
+    """lemma over the two product-form contracts: with eta_i = lam_to_eta(lam_i, mu_i) (computed by the real function on
+    arrays) the ALPHA and betting histories coincide"""
+    finiteN = variant[0] == "finiteN"
+    n, u, t, Nv, Nspec = base_regime(S, finiteN)
+    x = S.array("x", n, 0, u)
+    lam = S.array("lam", n)
+    PS = x.fold("+")
+    mu = lambda k: mu_spec(Nspec, t, PS, k)
+    muarr = mk_arr(n, mu)
+    self = mk_self(I, {"u": u})
+    l2e = I.get(MOD, "NonnegMean.lam_to_eta")
+    S.native_desc = None
+    try:
+        eta = I.run(l2e, [self, lam, muarr])
+    except PyRaise as e:
+        S.holds("no-exception:" + e.exc_type, False)
+        return
+    fa = mk_arr(n, lambda k: alpha_factor(x.at(k), eta.at(k), mu(k), u))
+    fb = mk_arr(n, lambda k: bet_factor(x.at(k), lam.at(k), mu(k)))
+    Ta, Tb = fa.fold("*"), fb.fold("*")
+    Stot = PS.at(n)
+    if isinstance(n, int):
+        for j in range(n):
+            S.eq("ALPHA history = betting history", mart_hist_spec(Ta.at(j + 1), mu(j), j, n, u, Nspec, t, Stot),
+                 mart_hist_spec(Tb.at(j + 1), mu(j), j, n, u, Nspec, t, Stot))
+        return
+    # pointwise identity, proved with mu_k opaque (a scalar NRA fact about the two factor expressions)
+    c = ctx()
+    k0 = z3.Int(c.fresh("fk"))
+    c.index_terms_add(k0)
+    gk = lambda k: bimp(inside(mu(k), u), xsame(fa.at(k), fb.at(k)))
+    rfi = S.prove_using("factor identity where 0 < mu_k < u", gk(k0), [xr(mu(k0)).wf(), xcmp(">", u, XR.const(0))], opaque=[mu(k0)])
+
+    def fident(k):
+        if rfi.status == "proved":
+            c.assume(bimp(band(icmp(">=", k, 0), icmp("<", k, n)), gk(zi(k))))
+    if finiteN:
+        mono = S.forall_lemma("null-mean-monotone", n, lambda k: bimp(band(icmp(">=", k, 1), inside(mu(k), u)), inside(mu(isub(k, 1)), u)))
+    else:
+        mono = lambda i: True
+    inst = induction_with(S, "products agree while the null mean stays inside (0,u)",
+                          lambda k: bimp(band(icmp(">=", k, 1), inside(mu(isub(k, 1)), u)), xsame(Ta.at(k), Tb.at(k))), n,
+                          pre=lambda k: (mono(k), mono(k + 1), fident(k), fident(k + 1)))
+    for j in indices(S, n, "j"):
+        inst(j + 1)
+        S.eq("ALPHA history = betting history", mart_hist_spec(Ta.at(j + 1), mu(j), j, n, u, Nspec, t, Stot),
+             mart_hist_spec(Tb.at(j + 1), mu(j), j, n, u, Nspec, t, Stot))
+
+
+# ------------------------------------------------------------------ C01: supermartingale certificate
+
+@script(["C01"], "certificate/affine-factor+sign", variants=(("alpha", "finiteN"), ("alpha", "infN"), ("betting", "finiteN"), ("betting", "infN")))
+def cert_mart(S, I, variant):
+    """each multiplicative factor of the real code is 1 + lam_i (x_i - mu_i) with lam_i determined before draw i,
+    lam_i >= 0 and lam_i mu_i <= 1  (=> factor >= 0 on [0,u] and conditional mean <= 1 under the null)"""
+    which, finiteN = variant[0], variant[1] == "finiteN"
+    install_contracts(I)
+    n, u, t, Nv, Nspec, x, par, self = mart_setup(S, I, which, finiteN)
+    fn = I.get(MOD, "NonnegMean.alpha_mart" if which == "alpha" else "NonnegMean.betting_mart")
+    I.trace.clear()
+    r, exc = run_guard(S, I, fn, [self, x], native=mart_native(which, finiteN))
+    if exc:
+        return
+    if isinstance(n, int):
+        return
+    cps = I.trace.get("cum*", [])
+    if len(cps) != 1:
+        S.holds("exactly-one-running-product", False)
+        return
+    fc = cps[0]
+    PS = x.fold("+")
+    from pyvc.spec import skolem
+    i = skolem("i", n)
+    mu = mu_spec(Nspec, t, PS, i)
+    xi = npx(x.at(i))
+    one = XR.const(1, npk=True)
+    if which == "alpha":
+        eta = par.at(i)
+        lam = xdiv_np(xsub(xdiv_np(eta, mu), one), xsub(u, mu))
+        rng = band(xcmp(">=", eta, mu), xcmp("<=", eta, u))
+    else:
+        lam = par.at(i)
+        rng = band(xcmp(">=", lam, XR.const(0)), xcmp("<=", xmul(lam, mu), one))
+    ins = inside(mu, u)
+    base = S.base_facts + [xr(mu).wf(), xcmp(">=", xi, XR.const(0)), xcmp("<=", xi, u)]
+    S.prove_using("factor_i = 1 + lam_i (x_i - mu_i)", bimp(ins, xsame(fc.at(i), xadd(one, xmul(lam, xsub(xi, mu))))), base, opaque=[mu])
+    S.prove_using("lam_i >= 0 and lam_i mu_i <= 1 under the estimator/bet interface", bimp(band(ins, rng),
+                  band(xr(lam).fin(), xcmp(">=", lam, XR.const(0)), xcmp("<=", xmul(lam, mu), one))), base, opaque=[mu])
+    S.prove_using("factor_i >= 0 for every x_i in [0,u]", bimp(band(ins, rng), band(xr(fc.at(i)).fin(), xcmp(">=", fc.at(i), XR.const(0)))),
+                  base, opaque=[mu])
+
+
+@script(["C01"], "certificate/null-total-lemma")
+def cert_null_total(S, I, variant):
+    """the +inf overrides (p = 0) occur only on events impossible under the null: if all N values are >= 0 and their mean
+    is <= t then every partial sum PS(k) <= N t  (k <= N)"""
+    N = S.length("N", lo=1)
+    t = S.real("t", lo_strict=0)
+    u = S.real("u", lo_strict=0)
+    pop = S.array("pop", N, 0, u)
+    PS = pop.fold("+")
+    c = ctx()
+    Nt = xmul(XR.const(N), t)
+    if isinstance(N, int):
+        c.assume(xcmp("<=", PS.at(N), Nt))
+        for k in range(N + 1):
+            S.holds("PS(k) <= N t", xcmp("<=", PS.at(k), Nt))
+        return
+    c.assume(xcmp("<=", PS.at(N), Nt))
+    # monotone partial sums: PS(k) <= PS(N) by downward induction, phrased upward on d = N - k
+    inst = S.induction("partial sums are monotone", lambda d: xcmp("<=", PS.at(z3.simplify(zi(N) - d)), PS.at(N)), lo=0, hi=N)
+    from pyvc.spec import skolem
+    k = z3.Int(c.fresh("k"))
+    c.assume(z3.And(k >= 0, k <= zi(N)))
+    inst(zi(N) - k)
+    S.holds("PS(k) <= N t", xcmp("<=", PS.at(k), Nt))
+
+
+@script(["C01"], "certificate/affine-factor+sign[kaplan+sprt]")
+def cert_others(S, I, variant):
+    """the published factors of KK / KM / KW / SPRT as 1 + lam (x - mu) with 0 <= lam <= 1/mu (scalar NRA lemmas over the
+    factor expressions used in the product-form contracts)"""
+    u = S.real("u", lo_strict=0)
+    mu = S.real("mu", lo_strict=0, hi_strict=u)
+    x = S.real("x", lo=0, hi=u)
+    g = S.real("g", lo=0, hi_strict=1)
+    eta = S.real("eta", lo=mu, hi=u)
+    one = XR.const(1)
+    S.native_desc = None
+
+    def affine(name, f, lam):
+        S.holds(name + ": factor = 1 + lam (x - mu)", xsame(f, xadd(one, xmul(lam, xsub(x, mu)))))
+        S.holds(name + ": 0 <= lam, lam mu <= 1", band(xr(lam).fin(), xcmp(">=", lam, XR.const(0)), xcmp("<=", xmul(lam, mu), one)))
+
+    affine("Kaplan-Kolmogorov", xdiv_np(xadd(x, g), xadd(mu, g)), xdiv_np(one, xadd(mu, g)))
+    affine("Kaplan-Markov (1/factor of the code)", xdiv_np(xadd(x, g), xadd(mu, g)), xdiv_np(one, xadd(mu, g)))
+    affine("Kaplan-Wald", xadd(xdiv_np(xmul(xsub(one, g), x), mu), g), xdiv_np(xsub(one, g), mu))
+    affine("SPRT", alpha_factor(x, eta, mu, u), xdiv_np(xsub(xdiv_np(eta, mu), one), xsub(u, mu)))
+
+
+# ------------------------------------------------------------------ sample_size (C16)
+
+def abstract_test(S, store, hname="H"):
+    """field-held test abstracted by its interface contract (C11): returns (p, history) with one entry per observation,
+    each in [0,1]; the argument it was called with is recorded"""
+    def call(I, a, k):
+        from pyvc.npmodel import to_arr
+        pop = to_arr(I, a[0])
+        store.append(pop)
+        H = S.array(hname + str(len(store)), pop.length, 0, 1)
+        return (XR.finvar(ctx().fresh("pval"), npk=True), H)
+    return Builtin("abstract_test", call)
+
+
+@script(["C16"], "NonnegMean.sample_size/deterministic")
+def sample_size_det(S, I, variant):
+    L = S.length("len_x", lo=1)
+    N = S.integer("N", lo=1)
+    u = S.real("u", lo_strict=0)
+    alpha = S.real("alpha", lo_strict=0, hi_strict=1)
+    x = S.array("x", L, 0, u)
+    calls = []
+    self = mk_self(I, {"N": N, "u": u, "test": abstract_test(S, calls)})
+    fn = I.get(MOD, "NonnegMean.sample_size")
+    S.native_desc = {"kind": "nonneg_sample_size", "args": ["x", "alpha", "N", "u"]}
+    if S.mode == "replay":
+        out = S.native_out
+        if not out.get("ok"):
+            S.holds("no-exception:" + out.get("exception", "?"), False)
+            return
+        v = out["value"]
+        res, pop_native, H_native = v["sam_size"], v["pop"], v["hist"]
+        pop = from_native([float(z) if not isinstance(z, str) else z for z in pop_native])
+        H = from_native([float(z) if not isinstance(z, str) else z for z in H_native])
+        res = int(res)
+        Nn = int(S.inputs["N"]) if isinstance(S.inputs["N"], int) else None
+    else:
+        try:
+            res = I.run(fn, [self, x], {"alpha": alpha})
+        except PyRaise as e:
+            S.holds("no-exception:" + e.exc_type + ":" + e.msg[:40], False)
+            return
+        if len(calls) != 1:
+            S.holds("the test is run exactly once on the hypothetical population", False)
+            return
+        pop = calls[0]
+        H = S.inputs["H1"]
+    Nt = iterm(N) if not isinstance(N, int) else N
+    S.holds("population has N entries", icmp("==", pop.length, Nt))
+    c = ctx()
+    # pilot values tiled: pop[i] = x[i mod len(x)]
+    if isinstance(L, int) and isinstance(pop.length, int):
+        for i in range(pop.length):
+            S.eq("pop[i] = x[i mod len(x)]", pop.at(i), x.at(i % L))
+    else:
+        i = z3.Int(c.fresh("pi"))
+        c.assume(z3.And(i >= 0, i < zi(Nt)))
+        S.eq("pop[i] = x[i mod len(x)]", pop.at(i), x.at(mkint(i % zi(L))))
+    # first crossing
+    crossed = lambda k: xcmp("<=", H.at(k), alpha)
+    if isinstance(pop.length, int):
+        Nn = pop.length
+        first = Nn
+        for k in range(Nn - 1, -1, -1):
+            first = mkint(iite(crossed(k), k + 1, first))
+        S.holds("result = first k with hist[k-1] <= alpha, else N", icmp("==", res, first))
+    else:
+        r = iterm(res)
+        from pyvc.values import instantiate_universals
+        kq = z3.Int(c.fresh("kq"))
+        c.assume(z3.And(kq >= 0, kq < zi(Nt)))
+        c.skolems = getattr(c, "skolems", {})
+        c.skolems[tid(kq)] = kq
+        S.holds("1 <= result <= N", band(icmp(">=", r, 1), icmp("<=", r, Nt)))
+        S.holds("crossing at the result (or no crossing at all and result = N)",
+                bor(crossed(isub(r, 1)), band(icmp("==", r, Nt), bnot(crossed(kq)))))
+        S.holds("no crossing before the result", bimp(icmp("<", kq, isub(r, 1)), bnot(crossed(kq))))
